@@ -44,3 +44,44 @@ def kf_c18_seek_reload(component, script, impl, problems):
     if component != 'memconc' or not problems:
         return False
     return all(p.startswith('memconc ') and (': seek-below-target ' in p or ': find-missed ' in p) for p in problems)
+
+
+# C13 (component applier)
+# ---------------------------------------------------------------------------------------------------------------------
+
+def _c13_kinds(problems):
+    import re
+    return set(m.group(1) for m in (re.match(r'kind=([a-z-]+)', p) for p in problems) if m), \
+        [p for p in problems if not p.startswith('kind=')]
+
+
+def kf_c13_shared_seq(component, script, impl, problems):
+    """D29: the log contains a transaction (entries sharing one sequence number) and every deviation comes from the
+    applier treating a number as one entry: a batch with two equal numbers is abandoned after its first part was
+    applied (re-applied by every retransmission), or one member of the transaction is accepted under the number and the
+    others are never accepted (skipped; reported sequence ahead of what was applied). Anything else -> no match."""
+    if component != 'applier' or not problems:
+        return False
+    from oracledefs import applier
+    kinds, other = _c13_kinds(problems)
+    if other or not kinds <= {'order-repeat', 'order-skip', 'exceeds'}:
+        return False
+    ex = applier.explain(script, impl)
+    return bool(ex['shared'] and not ex['unexplained'] and ex['mech'] and ex['mech'] <= {'shared-group', 'shared-inbatch'})
+
+
+def kf_c13_partial_batch(component, script, impl, problems):
+    """ApplyEntries hands entries to the callback while it is still validating the batch and returns early without
+    counting them (hole inside the batch, apply error, undecodable payload): the retransmission applies the counted-for-
+    nothing part again. Matches only logs WITHOUT shared numbers whose sole deviation is such a re-application."""
+    if component != 'applier' or not problems:
+        return False
+    from oracledefs import applier
+    kinds, other = _c13_kinds(problems)
+    if other or not ({'order-repeat'} <= kinds <= {'order-repeat', 'state'}):
+        return False
+    if 'state' in kinds and not applier.state_follows_applied(script, impl):
+        return False
+    ex = applier.explain(script, impl)
+    return bool(not ex['shared'] and not ex['unexplained'] and ex['mech'] and
+                ex['mech'] <= {'partial-gapin', 'partial-applyerr', 'partial-deser'})
